@@ -86,6 +86,19 @@ CHECKS['C08'] = dict(
         'ISA constants: T0 288.15 K, L -6.5 K/km, P0 1013.25 hPa, R* 8.31432, M 0.0289644, g0 9.80665. Temperatures above the model floor (-130 F).',
    ref='3/C08')
 
+CHECKS['C03'] = dict(
+   text='(I) one real should_record call from an arbitrary filter state under the representation invariant: a row is emitted iff the next record distance was reached, it is the exact linear interpolation there, invariant again - hence every shot and length. '
+        '(P) the real Calculator.fire on carriers with concrete physics and SYMBOLIC range and record step (quantity in ft/m/yd or bare): every cell of the (range, step) plane; row count, row distance = k*step as terms, monotonicity, muzzle row, 11 rows by default, time-step spacing.',
+   note='Carriers A (.308 G7), B (G1 1250 fps), C (G1 930 m/s at 30 deg) with coarse integration steps; horizon K <= 12 (quick) / 40 (thorough) integration steps (default-step runs K ~ 22-26). "One integration step" beyond the range = the configured step (max_step/2). '
+        'Record arithmetic over the reals. KNOWN FINDING: a step larger than the range yields a padding row (see known_findings.json). Outside: record steps smaller than the integration step; shots that stop moving down-range.',
+   ref='3/C03')
+CHECKS['C12'] = dict(
+   text='Real Shot.winds (sort on symbolic keys forks over every ordering) + real _WindSock driven exactly as _integrate drives it, with SYMBOLIC until-distances (any order, duplicates) and symbolic query positions: the vector in force equals the first sorted segment whose until-distance exceeds x, '
+        'zero beyond the last; Wind.vector sign conventions and left-right mirroring on symbolic speed/direction.',
+   note='n <= 3 winds quick / 4 thorough, n+2 queries. Wind vectors are identified by concrete distinct speeds. Causality, mirror symmetry of whole trajectories and head/tail-wind effect on drop/time are decided on carriers / one integration step in the C12 carrier harnesses when present; '
+        'beyond one step the head/tail statement is at test strength (outside).',
+   ref='3/C12')
+
 NOT_YET = {}
 
 def main():
